@@ -36,7 +36,7 @@ class C08(Harness):
     def cells(self, tier):
         out = []
         for gib in (False, True):
-            for base in ("plain", "pipeline", "multiplexer", "randomized"):
+            for base in ("plain", "pipeline", "multiplexer", "randomized", "listgrid"):
                 for refit in (True, False):
                     out.append({"name": "%s-%s-%s" % (base, "gib" if gib else "loss", "refit" if refit else "norefit"), "kind": base, "gib": gib, "refit": refit, "cost": 2})
         return out
@@ -53,7 +53,8 @@ class C08(Harness):
         nb = ctx.fresh_int("nb")
         ctx.assume((nb >= 0) & (nb <= 1))
         nb = int(nb)
-        return {"n": nn, "iw": int(iw), "nc": int(nc), "s0": ctx.fresh_int("s0"), "y": fresh_reals(ctx, "y", nn), "u": fresh_reals(ctx, "u", nb)}
+        return {"n": nn, "iw": int(iw), "nc": int(nc), "s0": ctx.fresh_int("s0"), "y": fresh_reals(ctx, "y", nn), "u": fresh_reals(ctx, "u", nb),
+                "wrapped_scorer": bool(ctx.fresh_bool("wrapped_scorer"))}
 
     def scenario(self, W, inp, cell):
         np, pd = W.np, W.pd
@@ -68,6 +69,11 @@ class C08(Harness):
         y = pd.Series(inp["y"], index=pd.RangeIndex(s0, s0 + n))
         cv = sp.ExpandingWindowSplitter(fh=1, initial_window=inp["iw"], step_length=1)
         sc = make_score(W, gib=cell["gib"])
+        if inp.get("wrapped_scorer"):
+            # the library's own scorer wrapper around the same uninterpreted metric
+            mk = W.load("sktime.performance_metrics.forecasting._classes").make_forecasting_scorer
+            raw = sc
+            sc = mk(lambda a, b: raw(a, b), name="stub", greater_is_better=cell["gib"])
         kind = cell["kind"]
         ps = list(range(1, nc + 1))
         if kind == "plain":
@@ -82,6 +88,10 @@ class C08(Harness):
             base = MUX([("a", Member(p=1)), ("b", Member(p=2))])
             grid = {"selected_forecaster": ["a", "b"][:nc]}
             cand_p = [1, 2][:nc]
+        elif kind == "listgrid":
+            # a list of grids with different key sets: the second grid's candidates must keep the base value of q
+            base, grid = Member(p=0, q=0), [{"p": [1], "q": [5]}, {"p": ps[1:]}]
+            cand_p = ps
         else:
             base, grid = Member(p=0), {"p": ps}
             cand_p = None
@@ -133,12 +143,14 @@ class C08(Harness):
         F = lambda p, c, l: W.uf("forecast", [p, c, l], "iii>r")  # noqa
         splits = out["splits"]
         # candidate -> member parameter
-        key = {"plain": "p", "pipeline": "f__p", "multiplexer": "selected_forecaster", "randomized": "p"}[kind]
+        key = {"plain": "p", "pipeline": "f__p", "multiplexer": "selected_forecaster", "randomized": "p", "listgrid": "p"}[kind]
         cands = out["params"]
         if kind == "randomized":
             P.check("candidates-enumerated", len(cands) == nc and all(set(d) == {"p"} and d["p"] in range(1, nc + 1) for d in cands))
         elif kind == "multiplexer":
             P.check("candidates-enumerated", [d[key] for d in cands] == ["a", "b"][:nc])
+        elif kind == "listgrid":
+            P.check("candidates-enumerated", cands == [{"p": 1, "q": 5}] + [{"p": v} for v in range(2, nc + 1)])
         else:
             P.check("candidates-enumerated", [d[key] for d in cands] == list(range(1, nc + 1)))
         if len(cands) != len(out["means"]):
@@ -168,6 +180,8 @@ class C08(Harness):
                 if len(fitlog) == expected_fits:
                     e = fitlog[j * nfold + f_i]
                     P.check("same-splits-for-every-candidate", e["who"] == p and len(e["idx"]) == len(tr))
+                    if kind == "listgrid":  # every candidate = the base forecaster plus exactly its own parameters
+                        P.check("row-equals-independent-evaluate", e["q"] == d.get("q", 0), {"candidate": j, "q_seen": e["q"]})
                     for lab, q, v in zip(e["idx"], tr, e["vals"]):
                         P.eq("same-splits-for-every-candidate", lab, s0 + q)
                         P.eq("same-splits-for-every-candidate", v, tf(y[q]))
